@@ -245,6 +245,90 @@ def Nouts (c : OpCall) : Prop :=
 def GetterPure (c : OpCall) : Prop :=
   ∃ gs, getterTuple c = some gs ∧ ∀ g ∈ gs, (getterDen g).isSome = true
 
+/-! ## Loop options -/
+
+/-- A loop of the source tree: `header` = the target (`for`) / the test (`while`). -/
+structure SourceLoop where
+  id : Nat
+  isFor : Bool
+  header : Expr
+  deriving Repr, Inhabited
+
+mutual
+def sourceLoopsS : Stmt → List SourceLoop
+  | .for_ id target _ body orelse _ isAsync =>
+      (if isAsync then [] else [⟨id, true, target⟩]) ++ sourceLoopsL body ++ sourceLoopsL orelse
+  | .while_ id test body orelse => ⟨id, false, test⟩ :: (sourceLoopsL body ++ sourceLoopsL orelse)
+  | .if_ _ _ body orelse => sourceLoopsL body ++ sourceLoopsL orelse
+  | .functionDef _ _ _ body _ _ _ => sourceLoopsL body
+  | .classDef _ _ _ _ body _ => sourceLoopsL body
+  | .with_ _ _ body _ => sourceLoopsL body
+  | .try_ _ b h e f => sourceLoopsL b ++ sourceLoopsL h ++ sourceLoopsL e ++ sourceLoopsL f
+  | .handler _ _ _ body => sourceLoopsL body
+  | .other _ _ _ blocks => sourceLoopsL blocks
+  | _ => []
+def sourceLoopsL : List Stmt → List SourceLoop
+  | [] => []
+  | s :: ss => sourceLoopsS s ++ sourceLoopsL ss
+end
+
+/-- The first statement of a `for` body function after its declarations is `target = <its parameter>`. -/
+def forBodyTarget (c : OpCall) : Option Expr :=
+  match c.body.body.dropWhile isDecl, c.body.params with
+  | .assign _ [t] (.name _ v _) :: _, [p] => if v == p then some t else none
+  | _, _ => none
+
+/-- The expression returned by the test function of a `while_stmt`. -/
+def whileTest (c : OpCall) : Option Expr :=
+  match c.second with
+  | some f => match f.body with
+    | [.ret _ [e]] => some e
+    | _ => none
+  | none => none
+
+/-- A loop's options are exactly the directive annotated on THAT source loop (`dirs.lookup l.id`), a `for_stmt`
+additionally carries `iterate_names` = the unparsed target of that same loop, and the generated body / test
+function is that loop's (it unpacks that loop's target / returns that loop's test).  An `if_stmt` carries the
+state variables and the output count `_get_block_vars` computed from the annotations of one `if` node. -/
+def OptsOk (env : Env) (L : List SourceLoop) (c : OpCall) : Prop :=
+  match c.kind with
+  | .ifStmt => ∃ (fs : FnScope) (id : Nat),
+      c.names = (env.blockVars fs id ((env.scope id "BODY_SCOPE").bound ++ (env.scope id "ORELSE_SCOPE").bound)).scopeVars.map strConst ∧
+      c.last = intConst (env.blockVars fs id ((env.scope id "BODY_SCOPE").bound ++ (env.scope id "ORELSE_SCOPE").bound)).nouts
+  | .forStmt => ∃ l ∈ L, l.isFor = true ∧
+      c.last = loopOptions env.dirs l.id [("iterate_names", strConst (unparseE l.header))] ∧
+      forBodyTarget c = some (splice .store l.header)
+  | .whileStmt => ∃ l ∈ L, l.isFor = false ∧
+      c.last = loopOptions env.dirs l.id [] ∧ whileTest c = some (splice .load l.header)
+
+/-- The tree contains no operator-call statement of its own (the `ag__` namespace belongs to the converter). -/
+def isOpCall (s : Stmt) : Bool := (opCall? s).isSome
+
+mutual
+def cleanS : Stmt → Bool
+  | .functionDef _ _ _ body _ _ _ => cleanL body
+  | .classDef _ _ _ _ body _ => cleanL body
+  | .for_ _ _ _ body orelse _ _ => cleanL body && cleanL orelse
+  | .while_ _ _ body orelse => cleanL body && cleanL orelse
+  | .if_ _ _ body orelse => cleanL body && cleanL orelse
+  | .with_ _ _ body _ => cleanL body
+  | .try_ _ b h e f => cleanL b && cleanL h && cleanL e && cleanL f
+  | .handler _ _ _ body => cleanL body
+  | .other _ _ _ blocks => cleanL blocks
+  | .expr i v => !isOpCall (.expr i v)
+  | _ => true
+def cleanL : List Stmt → Bool
+  | [] => true
+  | s :: ss => cleanS s && cleanL ss
+end
+
+/-- Everything the contract says of one call, as far as its own syntax goes. -/
+def Good (c : OpCall) : Prop :=
+  Lengths c ∧ Positions c ∧ Arity c ∧ Nouts c ∧ Distinct c ∧ GetterPure c
+
+/-- The output of the model of `ControlFlowTransformer` on `root`. -/
+def cfOutput (env : Env) (nm : Naming.Namer) (root : Stmt) : ParsedOutput := (transform env nm root).1
+
 /-! ## Decision procedures -/
 
 def strConstB (e : Expr) : Option String :=
@@ -314,12 +398,16 @@ def contractOk (g : ParsedOutput) : Bool :=
 
 /-! ## Store semantics of the state functions
 
-A store maps a variable (qualified name) to its value, `none` = unbound name / missing attribute or key.
-Distinct qualified names are distinct locations (no aliasing between entries of one state tuple: assumption
-of this small semantics).  The getter evaluates its tuple left to right: a bare read of an unbound variable
-raises (`none`), a guarded read (`ag__.ldu`) of a missing one yields `Undefined(label)`; an element that is not
-a plain read is an *unknown effect*.  The setter is one tuple assignment: arity mismatch raises before any
-target is written. -/
+A store maps a *location* to its value, `none` = unbound name / missing attribute or key.  Locations are
+qualified names whose subscripts are resolved: `dd[x]` with `x = 0` is the location `dd[0]` (`loc`), so an entry
+whose subscript variable is itself rewritten by the same tuple assignment, and two entries that alias
+(`dd[x]`, `dd[0]`), behave as in Python.  What the semantics does NOT model: object identity of container
+variables (`o.a` is a location of the *name* `o`; rebinding `o` in the same tuple, or `o is p`, is outside it).
+
+The getter evaluates its tuple left to right: a bare read of an unbound variable raises (`none`), a guarded read
+(`ag__.ldu`) of a missing one yields `Undefined(label)`; an element that is not a plain read is an *unknown
+effect*.  The setter is one tuple assignment `t1, ..., tn = vs`: arity mismatch raises before any target is
+written; targets are assigned left to right, each location resolved when it is assigned. -/
 
 inductive Val where
   | int (n : Int)
@@ -333,13 +421,41 @@ structure World where
   store : Store
   effects : Nat := 0            -- number of effects (calls of unknown code) performed so far
 
+/-- A value used as a subscript. -/
+def valLit : Val → QN
+  | .int n => .lit "int" (toString n)
+  | .obj n => .lit "obj" (toString n)
+  | .undef l => .lit "undef" l
+
+/-- A subscript: a variable is replaced by its current value (`none`: unbound), anything else is taken literally. -/
+def resolveIdx (σ : Store) : QN → Option QN
+  | .sym k => (σ (.sym k)).map valLit
+  | i => some i
+
+/-- The location an access path denotes in `σ`. -/
+def loc (σ : Store) : QN → Option QN
+  | .sym s => some (.sym s)
+  | .lit k r => some (.lit k r)
+  | .attr b a => (loc σ b).map (.attr · a)
+  | .sub b i =>
+    match loc σ b, resolveIdx σ i with
+    | some b', some i' => some (.sub b' i')
+    | _, _ => none
+
+/-- The variables whose value determines the location of an access path. -/
+def indexSyms : QN → List String
+  | .sym _ => []
+  | .lit _ _ => []
+  | .attr b _ => indexSyms b
+  | .sub b i => (match i with | .sym k => [k] | _ => []) ++ indexSyms b
+
 def labelStr (e : Expr) : String :=
   match e with
   | .const _ "str" r => pyUnrepr r
   | _ => ""
 
 def readEntry (σ : Store) (en : Entry) : Option Val :=
-  match σ en.qn with
+  match (loc σ en.qn).bind σ with
   | some v => some v
   | none => if en.guarded then some (.undef (labelStr en.label)) else none
 
@@ -362,15 +478,32 @@ def runGetter (c : OpCall) (w : World) : Option (List Val) × World :=
   | some gs => evalGetter gs w
   | none => (none, { w with effects := w.effects + 1 })
 
+/-- What each element of a getter tuple reads (`none` = some element is not a read). -/
+def entriesOf (gs : List Expr) : Option (List Entry) := gs.mapM getterDen
+
+def entries (c : OpCall) : Option (List Entry) := (getterTuple c).bind entriesOf
+
+/-- Reading the state, as a function of the store (all elements are reads). -/
+def getS (es : List Entry) (σ : Store) : Option (List Val) := es.mapM (readEntry σ)
+
 def update (σ : Store) (q : QN) (v : Val) : Store := fun q' => if q' = q then some v else σ q'
 
+/-- Writes to already resolved locations. -/
 def assignAll : List QN → List Val → Store → Store
   | q :: qs, v :: vs, σ => assignAll qs vs (update σ q v)
   | _, _, σ => σ
 
+/-- Assign the targets left to right, resolving each when it is assigned (`none`: an index variable is unbound). -/
+def assignSeq : List QN → List Val → Store → Option Store
+  | q :: qs, v :: vs, σ =>
+    match loc σ q with
+    | some l => assignSeq qs vs (update σ l v)
+    | none => none
+  | _, _, σ => some σ
+
 /-- `t1, ..., tn = vs`. -/
 def setS (qs : List QN) (vs : List Val) (σ : Store) : Option Store :=
-  if qs.length = vs.length then some (assignAll qs vs σ) else none
+  if qs.length = vs.length then assignSeq qs vs σ else none
 
 def runSetter (c : OpCall) (vs : List Val) (σ : Store) : Option Store :=
   match setterTargets c with
@@ -378,5 +511,24 @@ def runSetter (c : OpCall) (vs : List Val) (σ : Store) : Option Store :=
     | some qs => setS qs vs σ
     | none => none
   | none => none
+
+/-- The finding class `missing_composite_written_back`: the state tuple has a guarded (composite) entry that
+the store lacks at call time.  Its negation is the hypothesis of `C03_get_set_partial`. -/
+def missingComposite (c : OpCall) (σ : Store) : Bool :=
+  match entries c with
+  | some es => es.any fun e => e.guarded && ((loc σ e.qn).bind σ).isNone
+  | none => false
+
+/-- The finding class `state_entry_indexes_by_state_entry`: the location of some entry depends on a variable that
+the same state tuple rewrites (`('dd[x]', 'x')`).  Its negation is a hypothesis of `C03_set_get_partial`. -/
+def dependentEntries (es : List Entry) : Bool :=
+  es.any fun e => (indexSyms e.qn).any fun k => (es.map (·.qn)).contains (.sym k)
+
+/-- Two entries of the tuple denote the same location in `σ` (`dd[x]` and `dd[0]` with `x = 0`), or one cannot be
+located.  Its negation is the other hypothesis of `C03_set_get_partial`. -/
+def aliasedEntries (es : List Entry) (σ : Store) : Bool :=
+  match es.mapM (fun e => loc σ e.qn) with
+  | some ls => !nodupB ls
+  | none => true
 
 end Malt.Conv.Contract
